@@ -1159,12 +1159,49 @@ func installOneCommit(c *eng.Ctx) {
 	c.Check(seen["levelInputs"] && seen["levelUpInputs"], "both-input-levels-deleted", nil, mk, "both the level's inputs and the overlapping inputs one level up are deleted", fmt.Sprint(dels))
 	it := c.Fn(cjT + ".makeInputIterator")
 	gi := c.One(it, eng.AnyCallTo(cmpT+".GetInputs"), "GetInputs()")
-	conds3, _ := eng.GuardingConds(it, gi.Instr)
+	// the index applied to GetInputs() reaches 1: as a constant (unrolled), or as a counter whose tightest known upper bound
+	// at the indexing is >= 1 (which < 2, which <= 1, which < len(inputs))
 	okBoth := false
-	for _, cd := range conds3 {
-		if strings.HasSuffix(p.Desc(cd), "<2)") {
-			okBoth = true
+	facts3 := p.MustFacts(it)
+	constIdx := map[int64]bool{}
+	for _, b := range it.Blocks {
+		for _, in := range b.Instrs {
+			ia, ok := in.(*ssa.IndexAddr)
+			if !ok || eng.Unwrap(ia.X) != gi.Instr.(ssa.Value) {
+				continue // only the indexing of the list of input sets itself (not of one set's files)
+			}
+			if k, isC := eng.ConstInt(ia.Index); isC {
+				constIdx[k] = true
+				continue
+			}
+			best, have := int64(0), false
+			for _, ft := range facts3.At(in) {
+				if ft.Y == nil || eng.Unwrap(ft.X) != eng.Unwrap(ia.Index) || (ft.Op != "lt" && ft.Op != "le") {
+					continue
+				}
+				k, isC := eng.ConstInt(ft.Y)
+				if !isC {
+					if lc, isL := eng.Unwrap(ft.Y).(*ssa.Call); isL && len(lc.Call.Args) == 1 && eng.Unwrap(lc.Call.Args[0]) == gi.Instr.(ssa.Value) {
+						if bi, isB := lc.Call.Value.(*ssa.Builtin); isB && bi.Name() == "len" {
+							okBoth = true // bounded by the number of input sets itself
+						}
+					}
+					continue
+				}
+				if ft.Op == "lt" {
+					k--
+				}
+				if !have || k < best {
+					best, have = k, true
+				}
+			}
+			if have && best >= 1 {
+				okBoth = true
+			}
 		}
+	}
+	if constIdx[0] && constIdx[1] {
+		okBoth = true
 	}
 	c.Check(okBoth, "iterates-both-input-sets", gi.Instr, it, "the merged input iterator is built from both input sets (which < 2)", "")
 	gr := c.One(it, invokeOn(".snapshot", "GetReader"), "snapshot.GetReader")
